@@ -133,6 +133,13 @@ func (x *xl) errValue(c *ast.CallExpr) (string, *gty, error) {
 
 func (x *xl) call(c *ast.CallExpr, want *gty) (string, *gty, error) {
 	ftext := exprStr(c.Fun)
+	if _, ok := x.hint(exprStr(c)); ok && x.spec.atoms {
+		if _, isExt := x.spec.ext[ftext]; !isExt {
+			if a, ty, err := x.atom(c, want); err == nil {
+				return a, ty, nil
+			}
+		}
+	}
 	if es, ok := x.spec.ext[ftext]; ok {
 		if es.state != "" {
 			return "", nil, errf("call `%s` writes to %s and must be a statement of its own", exprStr(c), es.state)
@@ -141,6 +148,27 @@ func (x *xl) call(c *ast.CallExpr, want *gty) (string, *gty, error) {
 	}
 	switch f := c.Fun.(type) {
 	case *ast.Ident:
+		if v := x.lookup(f.Name); v != nil && v.ty.k == "opaque" {
+			rt := want
+			if h, ok := x.hint(f.Name + "()"); ok {
+				rt = h
+			}
+			if rt == nil {
+				return "", nil, errf("cannot type the call of the function value `%s` (needs a type hint)", exprStr(c))
+			}
+			args, tys := []string{v.coq}, []string{v.ty.name}
+			for _, a := range c.Args {
+				code, ty, err := x.expr(a, nil)
+				if err != nil {
+					return "", nil, err
+				}
+				args = append(args, code)
+				tys = append(tys, ty.coq())
+			}
+			name := "call_" + strings.TrimPrefix(v.ty.name, "T_")
+			x.addParam(name, strings.Join(append(tys, rt.coq()), " -> "), "calling a function value of type "+v.ty.name, 1)
+			return "(" + name + " " + strings.Join(args, " ") + ")", rt, nil
+		}
 		if x.lookup(f.Name) == nil {
 			switch f.Name {
 			case "len":
@@ -195,6 +223,15 @@ func (x *xl) call(c *ast.CallExpr, want *gty) (string, *gty, error) {
 				}
 				return a, tBytes, nil
 			case "make":
+				if len(c.Args) == 3 {
+					if lit, ok := c.Args[1].(*ast.BasicLit); ok && lit.Value == "0" {
+						// make([]T, 0, n): an empty slice (capacity is not modelled)
+						if ty, err := x.goType(c.Args[0]); err == nil && (ty.k == "list" || ty.k == "bytes") {
+							z, _ := ty.zero()
+							return z, ty, nil
+						}
+					}
+				}
 				if len(c.Args) == 2 && exprStr(c.Args[0]) == "[]byte" {
 					if lit, ok := c.Args[1].(*ast.BasicLit); ok && lit.Kind == token.INT {
 						return "(repeat 0%N " + lit.Value + "%nat)", tBytes, nil
@@ -265,6 +302,13 @@ func (x *xl) call(c *ast.CallExpr, want *gty) (string, *gty, error) {
 			}
 		}
 	case *ast.SelectorExpr:
+		if f.Sel.Name == "Error" && len(c.Args) == 0 {
+			if id, ok := f.X.(*ast.Ident); ok {
+				if v := x.lookup(id.Name); v != nil && v.ty.k == "err" {
+					return "(err_text " + v.coq + ")", tBytes, nil
+				}
+			}
+		}
 		switch ftext {
 		case "bytes.Equal":
 			a, _, err := x.expr(c.Args[0], tBytes)
@@ -310,6 +354,17 @@ func (x *xl) call(c *ast.CallExpr, want *gty) (string, *gty, error) {
 			if id, ok := f.X.(*ast.Ident); ok {
 				if v := x.lookup(id.Name); v != nil && v.ty.k == "opaque" {
 					recvCode, recvTy = v.coq, v.ty
+				}
+			} else if se, isSel := f.X.(*ast.SelectorExpr); isSel && x.spec.fieldObs {
+				// a field (of a struct of this package) that holds an opaque value
+				if _, _, sname, ok := x.structPath(se.X); ok {
+					if ft, err := x.structField(sname, se.Sel.Name); err == nil && ft.k == "opaque" {
+						c0, t0, err := x.selector(se, nil)
+						if err != nil {
+							return "", nil, err
+						}
+						recvCode, recvTy = c0, t0
+					}
 				}
 			} else if _, isCall := f.X.(*ast.CallExpr); isCall {
 				if bt := x.tryType(f.X); bt != nil && bt.k == "opaque" {
